@@ -354,6 +354,11 @@ type membership struct {
 	ref *net.IPNet
 	n   int
 
+	// noMapped: the prefix comes from IPNetToPrefixNoMapped, which documents
+	// that an IPv4-mapped address is an IPv4 address; a mapped probe is then
+	// also asked in its IPv4 form.
+	noMapped bool
+
 	pairs         int64
 	classPairs    int64
 	firstClass    string
@@ -374,6 +379,13 @@ func (m *membership) probe(x *[16]byte) {
 
 	xs := net.IP(x[:m.n])
 	inP, inN := m.p.Contains(xa), m.ref.Contains(xs)
+	if inP == inN && m.noMapped && xa.Is4In6() {
+		// The same address in the form the function says it converts to.
+		m.pairs++
+		xa, xs = xa.Unmap(), xs.To4()
+		inP, inN = m.p.Contains(xa), m.ref.Contains(xs)
+	}
+
 	if inP == inN {
 		return
 	}
@@ -490,7 +502,7 @@ func checkPrefix(c *runlib.Ctx, ic, mc bcase, fam netutil.AddrFamily, triples bo
 	}
 
 	n := bits / 8
-	m := &membership{p: p, ref: ref, n: n}
+	m := &membership{p: p, ref: ref, n: n, noMapped: fam == netutil.AddrFamilyNone}
 	var base net.IP
 	if n == net.IPv4len {
 		base = ref.IP.To4()
